@@ -2,32 +2,53 @@ import Glom.Py.PV
 import Glom.Py.Val
 import Glom.Model.C02Prim
 /-
-  The executable instance `hPrim : Prim Val HS` of the primitive semantics of
+  The executable instance `hPrim F n : Prim Val HS` of the primitive semantics of
   C02: Python values with OBJECT IDENTITY.  A value is an immediate scalar or the
   address of a heap cell (`Glom.Val` / `Glom.Obj` / `Glom.Heap`, the kernel shared
-  with the heap-based properties); the state `HS` is the heap.  `list`, `tuple`,
-  `dict`, plain attribute objects, `slice` objects and bound methods of builtin
-  values are heap cells:
+  with the heap-based properties); the state `HS` is the heap.  Every cell carries
+  the NAME OF ITS CLASS, so instances of subclasses of the builtin containers are
+  cells of the same layouts:
 
-      list  → .list "list" items          tuple → .tuple "tuple" items
-      dict  → .dict "dict" entries        Obj   → .inst cls attrs
-      slice → .inst "slice" [start, stop, step]
+      list   → .list "list" items       Column / MyList      → .list "Column" items
+      tuple  → .tuple "tuple" items     Point (namedtuple)   → .tuple "Point" items
+      dict   → .dict "dict" entries     OrderedDict / defaultdict / Counter / Bag → .dict cls entries
+      set    → .set "set" items         frozenset            → .set "frozenset" items
+      Obj    → .inst cls attrs          slice → .inst "slice" [start, stop, step]
       x.meth → .inst "<bound>" [("self", x), ("name", "meth")]
+      d.keys() → .inst "<view>" [("kind", "keys"), ("dict", d)]          (a live view)
+      a glom `T…` object → .inst "TType" [("ops", tuple cell of its `__ops__`)]
+      `Spec(x)` → .inst "Spec" [("spec", x)]     `Val(x)` → .inst "Val" [("value", x)]
 
-  So `T['l'].pop()` changes the cell every other path to that list reaches,
-  `T['l'] + [1]` is a NEW list whose members are the very objects of the old
-  one, `dict.get` / `setdefault` return the object stored in the dict, a popped
-  member is detached but stays the same object, and a call hands the callee
-  the very cells its arguments evaluated to.
+  The heap may be ANY graph at the start (objects reachable by several paths,
+  cycles): nothing below assumes a tree.  `T['l'].pop()` changes the cell every
+  other path to that list reaches, `T['l'] + [1]` is a NEW list whose members are
+  the very objects of the old one, `dict.get` / `setdefault` return the object
+  stored in the dict, and a call hands the callee the very cells its arguments
+  evaluated to.
 
-  Numbers and strings are delegated to the identity-free kernel
-  `Glom/Model/C02Prim.lean`.  An operation outside the modelled domain returns
-  the pseudo exception `<unsupported>`, or — where the signature has no
-  exception — sets `HS.bad`; the driver then does not compare the model.
+  Python's data model as far as T chains reach it: attribute lookup through
+  properties / `__getattr__` / descriptors of the harness' probe classes
+  (`PropObj`, `DynObj`, `DescObj`: which exception class comes out), subscription
+  with slices (all `Option Int` triples, `Glom/Model/C18Slice.lean`), dict views,
+  the str methods of `strMethods`, every unary and binary operator on
+  int / bool / float / str / list / tuple / set / frozenset / dict with the exception
+  class CPython raises.  Numbers and strings are delegated to the identity-free
+  kernel `Glom/Model/C02Prim.lean`.  An operation outside the modelled domain
+  returns the pseudo exception `<unsupported>`, or — where the signature has no
+  exception — sets `HS.bad`; the driver then does not compare the model (the
+  property is still evaluated, against CPython's own outcome).
+
+  `revalFunc` — `arg_val` over the callee of a recorded call — is `argVal` of the
+  generic model on the object the heap value denotes (`objOfVal`): a glom `T`
+  expression / `Spec` / `Val` object found in the target's data and used as callee is
+  EVALUATED against the target, an exact list / tuple / dict / set is rebuilt, everything
+  else (functions, bound methods, instances of container subclasses, attribute objects)
+  is returned as it is (`hReval_plain`).  The nesting depth of spec-object callees
+  inside spec-object callees is bounded by the index `n` of `hPrim F n`.
 
   Modelled, not verified: every case is compared, on every run, with the same
   operation performed by CPython itself (third leg of the C02 correspondence),
-  including the state of the target afterwards.
+  including the state of the whole object graph afterwards.
 -/
 namespace Glom.C02
 open Glom
@@ -37,6 +58,7 @@ abbrev HObj := Glom.Obj
 structure HS where
   heap : Heap
   bad : Option String := none
+  deriving DecidableEq
 
 def HS.get (s : HS) (a : Nat) : Option HObj := s.heap[a]?
 def HS.alloc (s : HS) (o : HObj) : Val × HS := (.ref s.heap.length, { s with heap := s.heap ++ [o] })
@@ -76,11 +98,13 @@ def liftPV (r : Except PyExc PV) : Except PyExc Val :=
 /-- what a value is, in the current heap -/
 inductive Shape where
   | scalar (p : PV)
-  | list (a : Nat) (xs : List Val)
-  | tuple (a : Nat) (xs : List Val)
-  | dict (a : Nat) (es : List (Val × Val))
+  | list (a : Nat) (cls : String) (xs : List Val)
+  | tuple (a : Nat) (cls : String) (xs : List Val)
+  | dict (a : Nat) (cls : String) (es : List (Val × Val))
+  | set (a : Nat) (cls : String) (xs : List Val)
   | slice (start stop step : Val)
   | bound (self : Val) (name : String)
+  | view (kind : String) (dict : Val)
   | inst (a : Nat) (cls : String) (attrs : List (String × Val))
   | other
 
@@ -89,11 +113,13 @@ def shape (s : HS) (v : Val) : Shape :=
   | some p, _ => .scalar p
   | none, .ref a =>
     match s.get a with
-    | some (.list _ xs) => .list a xs
-    | some (.tuple _ xs) => .tuple a xs
-    | some (.dict _ es) => .dict a es
+    | some (.list c xs) => .list a c xs
+    | some (.tuple c xs) => .tuple a c xs
+    | some (.dict c es) => .dict a c es
+    | some (.set c xs) => .set a c xs
     | some (.inst "slice" [("start", x), ("stop", y), ("step", z)]) => .slice x y z
     | some (.inst "<bound>" [("self", self), ("name", .str n)]) => .bound self n
+    | some (.inst "<view>" [("kind", .str k), ("dict", d)]) => .view k d
     | some (.inst c attrs) => .inst a c attrs
     | _ => .other
   | none, _ => .other
@@ -104,6 +130,27 @@ def allocS (s : HS) (o : HObj) : Except PyExc Val × HS := (.ok (s.alloc o).1, (
 
 def mkBound (s : HS) (self : Val) (name : String) : Except PyExc Val × HS :=
   allocS s (.inst "<bound>" [("self", self), ("name", .str name)])
+
+/-! ### the classes of the harness' catalogue that are not plain builtins -/
+
+/-- namedtuple classes: field names in order -/
+def namedFields : List (String × List String) := [("Point", ["x", "y"])]
+
+/-- container subclasses whose constructor does not take what the builtin's takes
+    (`type(x)()` / `type(x)(items)` raises TypeError) -/
+def ctorNeedsArgs : List String := ["Point", "Pair", "Column", "Bag"]
+
+/-- glom's own objects stored as data: any operation ON them records a new expression
+    (`T['a'].x` is a T object) — outside the kernel -/
+def specClasses : List String := ["TType", "Spec", "Val", "<spec>"]
+
+/-- the probe class of the harness: every binary operation and subscription returns the
+    right operand itself (and remembers it in `last`) — identity of arguments is observable -/
+def probeCls : String := "Probe"
+
+def setAttr (attrs : List (String × Val)) (n : String) (v : Val) : List (String × Val) :=
+  if attrs.any (·.1 == n) then attrs.map (fun e => if e.1 == n then (n, v) else e)
+  else attrs ++ [(n, v)]
 
 /-! ### equality, hashing, dict lookup -/
 
@@ -116,7 +163,7 @@ def listEq (eq : Val → Val → Option Bool) : List Val → List Val → Option
   | _, _ => some false
 
 /-- Python `==` as the container methods use it (identity first); `none`: outside
-    the modelled domain (dict / object / float comparisons) -/
+    the modelled domain (dict / set / object / float comparisons) -/
 def hvEq (s : HS) : Nat → Val → Val → Option Bool
   | fuel, a, b =>
     match scalarPV a, scalarPV b with
@@ -132,17 +179,23 @@ def hvEq (s : HS) : Nat → Val → Val → Option Bool
             | some (.list _ xs), some (.list _ ys) => listEq (hvEq s fuel) xs ys
             | some (.tuple _ xs), some (.tuple _ ys) => listEq (hvEq s fuel) xs ys
             | some (.dict ..), some (.dict ..) => none
+            | some (.set ..), some (.set ..) => none
             | some (.inst ..), some (.inst ..) => none
             | some _, some _ => some false
             | _, _ => none
       | _, _ => some false
 
+/-- the set classes that are mutable (unhashable); every other set-layout class is a frozenset -/
+def mutableSetCls : List String := ["set", "MySet"]
+
 def hvHashable (s : HS) : Nat → Val → Bool
   | 0, _ => true
   | fuel + 1, .ref a =>
     match s.get a with
-    | some (.list ..) | some (.dict ..) | some (.set ..) => false
+    | some (.list ..) | some (.dict ..) => false
+    | some (.set c _) => !(mutableSetCls.contains c)
     | some (.tuple _ xs) => xs.all (hvHashable s fuel)
+    | some (.inst "slice" _) => true          -- hashable since 3.12
     | _ => true
   | _, _ => true
 
@@ -171,6 +224,52 @@ def hMkDict (s : HS) (kvs : List (Val × Val)) : Except PyExc Val × HS :=
   match kvs.foldlM (fun acc kv => dictInsertH s acc kv.1 kv.2) [] with
   | .ok es => allocS s (.dict "dict" es)
   | .error e => errS s e
+
+/-- membership of `x` in a list of set members -/
+def setMem (s : HS) (xs : List Val) (x : Val) : Except PyExc Bool :=
+  let rec go : List Val → Except PyExc Bool
+    | [] => .ok false
+    | y :: r => match hvEq s eqFuel y x with
+      | some true => .ok true
+      | some false => go r
+      | none => .error unsupported
+  go xs
+
+/-- the distinct members of `xs` in first-occurrence order; TypeError for an unhashable one -/
+def setOfList (s : HS) (xs : List Val) : Except PyExc (List Val) :=
+  xs.foldlM (fun acc x =>
+    if !hvHashable s eqFuel x then .error tyErr
+    else match setMem s acc x with
+      | .ok true => .ok acc
+      | .ok false => .ok (acc ++ [x])
+      | .error e => .error e) []
+
+/-- only sets of ints / bools / strs / None are built by the kernel: their canonical order
+    (the order the harness' encoder lists members in) is computable -/
+def setKeyOrd (v : Val) : Option (Nat × Int × String) :=
+  match v with
+  | .none => some (0, 0, "")
+  | .bool b => some (1, if b then 1 else 0, "")
+  | .int i => some (1, i, "")
+  | .str x => some (2, 0, x)
+  | _ => none
+
+def setLe (a b : Nat × Int × String) : Bool :=
+  a.1 < b.1 || (a.1 == b.1 && (a.2.1 < b.2.1 || (a.2.1 == b.2.1 && a.2.2 ≤ b.2.2)))
+
+/-- canonical member order (None, then numbers by value, then strings); `none`: a member
+    the kernel does not order -/
+def setCanon (xs : List Val) : Option (List Val) :=
+  match xs.mapM (fun x => (setKeyOrd x).map (fun k => (k, x))) with
+  | some ks => some ((ks.toArray.qsort (fun a b => setLe a.1 b.1 && !(setLe b.1 a.1))).toList.map (·.2))
+  | none => none
+
+def hMkSet (s : HS) (ty : String) (xs : List Val) : Except PyExc Val × HS :=
+  match setOfList s xs with
+  | .error e => errS s e
+  | .ok ys => match setCanon ys with
+    | some zs => allocS s (.set ty zs)
+    | none => errS s unsupported
 
 /-! ### subscription, attribute access -/
 
@@ -201,12 +300,12 @@ def seqGetH {α} (s : HS) (xs : List α) (key : Val) : Except PyExc (α ⊕ List
 
 def hGetitem (s : HS) (cur key : Val) : Except PyExc Val × HS :=
   match shape s cur with
-  | .list _ xs =>
+  | .list _ _ xs =>
     match seqGetH s xs key with
     | .ok (.inl x) => okS s x
-    | .ok (.inr ys) => allocS s (.list "list" ys)
+    | .ok (.inr ys) => allocS s (.list "list" ys)          -- a slice of a list subclass is a plain list
     | .error e => errS s e
-  | .tuple _ xs =>
+  | .tuple _ _ xs =>
     match seqGetH s xs key with
     | .ok (.inl x) => okS s x
     | .ok (.inr ys) => allocS s (.tuple "tuple" ys)
@@ -216,30 +315,102 @@ def hGetitem (s : HS) (cur key : Val) : Except PyExc Val × HS :=
     | .ok (.inl c) => okS s (.str (String.singleton c))
     | .ok (.inr cs) => okS s (.str (String.ofList cs))
     | .error e => errS s e
-  | .dict _ es =>
+  | .dict _ cls es =>
     match dictIdx s es key with
     | .ok (some i) => match es[i]? with
       | some e => okS s e.2
       | none => errS s unsupported
-    | .ok none => errS s ⟨"KeyError"⟩
+    | .ok none =>
+      if cls == "Counter" then okS s (.int 0)              -- Counter.__missing__
+      else if cls == "defaultdict" then errS s unsupported -- default_factory is not in the heap
+      else errS s ⟨"KeyError"⟩
     | .error e => errS s e
+  | .inst a cls attrs =>
+    if cls == probeCls then okS (s.set a (.inst cls (setAttr attrs "last" key))) key
+    else if specClasses.contains cls then errS s unsupported
+    else errS s tyErr
+  | .scalar (.ty _) => errS s unsupported                  -- `list[int]` is a GenericAlias
+  | .scalar (.fn n) => if n == "list" || n == "tuple" then errS s unsupported else errS s tyErr
+  | .other => errS s unsupported
   | _ => errS s tyErr
+
+/-- builtin methods the generators may name: (type, method) -/
+def heapMethods : List (String × String) :=
+  builtinMethods ++
+  [("dict", "keys"), ("dict", "values"), ("dict", "items"),
+   ("str", "lower"), ("str", "strip"), ("str", "lstrip"), ("str", "rstrip"), ("str", "split"),
+   ("str", "join"), ("str", "replace"), ("str", "find"), ("str", "endswith"), ("str", "isdigit"),
+   ("str", "capitalize"),
+   ("set", "add"), ("set", "discard"), ("set", "union"), ("frozenset", "union")]
+
+/-- attribute lookup on the probe classes of the harness (properties, `__getattr__`,
+    descriptors): which value / which exception class comes out -/
+def probeGetattr (s : HS) (cls : String) (attrs : List (String × Val)) (n : String) :
+    Option (Except PyExc Val × HS) :=
+  let field (k : String) : Except PyExc Val × HS := match attrs.find? (·.1 == k) with
+    | some (_, v) => okS s v
+    | none => errS s ⟨"AttributeError"⟩
+  match cls with
+  | "PropObj" =>
+    -- properties: found on the class before the instance dict
+    if n == "p_ok" then some (field "a")                        -- return self.a
+    else if n == "p_attr" then some (errS s ⟨"AttributeError"⟩) -- raises AttributeError
+    else if n == "p_val" then some (errS s ⟨"ValueError"⟩)
+    else if n == "p_key" then some (errS s ⟨"KeyError"⟩)
+    else if n == "p_zero" then some (errS s zdErr)
+    else none
+  | "DynObj" =>
+    -- `__getattr__`: only when normal lookup fails
+    if attrs.any (·.1 == n) then none
+    else if n.startsWith "dyn_" then some (okS s (.str (String.ofList (n.toList.drop 4))))
+    else if n == "boom" then some (errS s ⟨"ValueError"⟩)
+    else if n == "lookup" then some (errS s ⟨"KeyError"⟩)
+    else some (errS s ⟨"AttributeError"⟩)
+  | "DescObj" =>
+    -- `d`: a data descriptor (wins over the instance dict) returning `obj.a`;
+    -- `nd`: a non-data descriptor (the instance dict wins) returning 'nd';
+    -- `dbad`: a descriptor whose `__get__` raises ValueError
+    if n == "d" then some (field "a")
+    else if n == "nd" then (if attrs.any (·.1 == "nd") then none else some (okS s (.str "nd")))
+    else if n == "dbad" then some (errS s ⟨"ValueError"⟩)
+    else none
+  | _ => none
 
 def hGetattr (s : HS) (cur name : Val) : Except PyExc Val × HS :=
   match name with
   | .str n =>
     match shape s cur with
     | .bound _ _ => errS s ⟨"AttributeError"⟩
+    | .view .. => errS s ⟨"AttributeError"⟩
     | .slice .. => errS s unsupported
-    | .inst _ _ attrs =>
-      match attrs.find? (·.1 == n) with
-      | some (_, v) => okS s v
-      | none => errS s ⟨"AttributeError"⟩
-    | .list .. => if builtinMethods.contains ("list", n) then mkBound s cur n else errS s ⟨"AttributeError"⟩
-    | .tuple .. => if builtinMethods.contains ("tuple", n) then mkBound s cur n else errS s ⟨"AttributeError"⟩
-    | .dict .. => if builtinMethods.contains ("dict", n) then mkBound s cur n else errS s ⟨"AttributeError"⟩
+    | .inst _ cls attrs =>
+      if specClasses.contains cls then errS s unsupported
+      else match probeGetattr s cls attrs n with
+      | some r => r
+      | none =>
+        match attrs.find? (·.1 == n) with
+        | some (_, v) => okS s v
+        | none => errS s ⟨"AttributeError"⟩
+    | .list _ cls _ =>
+      if heapMethods.contains ("list", n) then mkBound s cur n
+      else if cls == "list" then errS s ⟨"AttributeError"⟩ else errS s unsupported
+    | .tuple _ cls xs =>
+      if heapMethods.contains ("tuple", n) then mkBound s cur n
+      else match namedFields.find? (·.1 == cls) with
+        | some (_, fs) => match fs.idxOf? n with
+          | some i => match xs[i]? with
+            | some x => okS s x
+            | none => errS s unsupported
+          | none => errS s unsupported
+        | none => if cls == "tuple" then errS s ⟨"AttributeError"⟩ else errS s unsupported
+    | .dict _ cls _ =>
+      if heapMethods.contains ("dict", n) then mkBound s cur n
+      else if cls == "dict" then errS s ⟨"AttributeError"⟩ else errS s unsupported
+    | .set _ cls _ =>
+      if heapMethods.contains (cls, n) then mkBound s cur n
+      else if cls == "set" || cls == "frozenset" then errS s ⟨"AttributeError"⟩ else errS s unsupported
     | .scalar p =>
-      if builtinMethods.contains (pvTypeName p, n) then mkBound s cur n else errS s ⟨"AttributeError"⟩
+      if heapMethods.contains (pvTypeName p, n) then mkBound s cur n else errS s ⟨"AttributeError"⟩
     | .other => errS s unsupported
   | _ => errS s tyErr
 
@@ -250,44 +421,86 @@ def dictMergeH (s : HS) (a b : List (Val × Val)) : Except PyExc Val × HS :=
   | .ok es => allocS s (.dict "dict" es)
   | .error e => errS s e
 
+/-- `a <op> b` on the member lists of two sets -/
+def setOp (s : HS) (b : BinOp) (xs ys : List Val) : Except PyExc (List Val) :=
+  -- which of two equal members of different types (`True` / `1`) survives is CPython's business
+  if (xs ++ ys).any (fun v => match v with | .bool _ => true | _ => false) then .error unsupported else
+  let keep (zs : List Val) (other : List Val) (want : Bool) : Except PyExc (List Val) :=
+    zs.foldlM (fun acc z => match setMem s other z with
+      | .ok m => .ok (if m == want then acc ++ [z] else acc)
+      | .error e => .error e) []
+  match b with
+  | .band => keep xs ys true
+  | .sub => keep xs ys false
+  | .bor => match keep ys xs false with
+    | .ok r => .ok (xs ++ r)
+    | .error e => .error e
+  | .bxor => match keep xs ys false, keep ys xs false with
+    | .ok l, .ok r => .ok (l ++ r)
+    | .error e, _ | _, .error e => .error e
+  | _ => .error tyErr
+
+def isSetOp : BinOp → Bool
+  | .band | .bor | .bxor | .sub => true
+  | _ => false
+
+def seqRepeatH (s : HS) (xs : List Val) (n : PV) (mk : List Val → HObj) : Except PyExc Val × HS :=
+  match asInt? n with
+  | some k => match repGuard xs.length k with
+    | some e => errS s e
+    | none => allocS s (mk (repeatList xs k))
+  | none => errS s tyErr
+
 def hBin (b : BinOp) (s : HS) (x y : Val) : Except PyExc Val × HS :=
   match scalarPV x, scalarPV y with
   | some p, some q => (liftPV (pvBin b p q), s)
   | _, _ =>
-    match b, shape s x, shape s y with
-    | .add, .list _ xs, .list _ ys => allocS s (.list "list" (xs ++ ys))
-    | .add, .tuple _ xs, .tuple _ ys => allocS s (.tuple "tuple" (xs ++ ys))
-    | .mul, .list _ xs, .scalar n => match asInt? n with
-      | some k => match repGuard xs.length k with
-        | some e => errS s e
-        | none => allocS s (.list "list" (repeatList xs k))
-      | none => errS s tyErr
-    | .mul, .tuple _ xs, .scalar n => match asInt? n with
-      | some k => match repGuard xs.length k with
-        | some e => errS s e
-        | none => allocS s (.tuple "tuple" (repeatList xs k))
-      | none => errS s tyErr
-    | .mul, .scalar n, .list _ xs => match asInt? n with
-      | some k => match repGuard xs.length k with
-        | some e => errS s e
-        | none => allocS s (.list "list" (repeatList xs k))
-      | none => errS s tyErr
-    | .mul, .scalar n, .tuple _ xs => match asInt? n with
-      | some k => match repGuard xs.length k with
-        | some e => errS s e
-        | none => allocS s (.tuple "tuple" (repeatList xs k))
-      | none => errS s tyErr
-    | .mod, .scalar (.str _), _ => errS s unsupported        -- printf-style formatting
-    | .bor, .dict _ a, .dict _ c => dictMergeH s a c
-    | _, .slice .., _ | _, _, .slice .. => errS s unsupported
-    | _, .other, _ | _, _, .other => errS s unsupported
-    | _, _, _ => errS s tyErr
+    match shape s x, shape s y with
+    -- the probe: returns the right operand itself
+    | .inst a cls attrs, _ =>
+      if cls == probeCls then okS (s.set a (.inst cls (setAttr attrs "last" y))) y
+      else if specClasses.contains cls then errS s unsupported
+      else match shape s y with
+        | .inst _ c2 _ => if c2 == probeCls || specClasses.contains c2 then errS s unsupported else errS s tyErr
+        | .other => errS s unsupported
+        | _ => errS s tyErr
+    | _, .inst _ cls _ =>
+      -- a reflected operation of the probe / a spec object on the right records a new expression
+      if cls == probeCls || specClasses.contains cls then errS s unsupported else errS s tyErr
+    | .slice .., _ | _, .slice .. => errS s unsupported
+    | .other, _ | _, .other => errS s unsupported
+    | .view .., _ | _, .view .. => errS s unsupported            -- set operations of keys / items views
+    | sx, sy =>
+      match b, sx, sy with
+      -- list / tuple (and instances of subclasses that override nothing): the result is a plain list / tuple
+      | .add, .list _ _ xs, .list _ _ ys => allocS s (.list "list" (xs ++ ys))
+      | .add, .tuple _ _ xs, .tuple _ _ ys => allocS s (.tuple "tuple" (xs ++ ys))
+      | .mul, .list _ _ xs, .scalar n => seqRepeatH s xs n (.list "list")
+      | .mul, .tuple _ _ xs, .scalar n => seqRepeatH s xs n (.tuple "tuple")
+      | .mul, .scalar n, .list _ _ xs => seqRepeatH s xs n (.list "list")
+      | .mul, .scalar n, .tuple _ _ xs => seqRepeatH s xs n (.tuple "tuple")
+      | .mod, .scalar (.str _), _ => errS s unsupported        -- printf-style formatting
+      | .bor, .dict _ c1 a, .dict _ c2 c =>
+        if c1 == "dict" && c2 == "dict" then dictMergeH s a c else errS s unsupported
+      | _, .dict _ c1 _, _ => if c1 == "dict" then errS s tyErr else errS s unsupported   -- Counter arithmetic
+      | _, _, .dict _ c2 _ => if c2 == "dict" then errS s tyErr else errS s unsupported
+      | _, .set _ c1 xs, .set _ c2 ys =>
+        if !((c1 == "set" || c1 == "frozenset") && (c2 == "set" || c2 == "frozenset")) then errS s unsupported
+        else if !isSetOp b then errS s tyErr
+        else match setOp s b xs ys with
+          | .ok zs => match setCanon zs with
+            | some ws => allocS s (.set c1 ws)                 -- the type of the left operand
+            | none => errS s unsupported
+          | .error e => errS s e
+      | _, _, _ => errS s tyErr
 
 def hUn (u : UnOp) (s : HS) (x : Val) : Except PyExc Val × HS :=
   match scalarPV x with
   | some p => (liftPV (pvUn u p), s)
   | none => match shape s x with
     | .other => errS s unsupported
+    | .inst _ cls _ => if cls == probeCls || specClasses.contains cls then errS s unsupported else errS s tyErr
+    | .dict _ cls _ => if cls == "dict" then errS s tyErr else errS s unsupported    -- `-Counter`
     | _ => errS s tyErr
 
 /-! ### calls -/
@@ -295,10 +508,36 @@ def hUn (u : UnOp) (s : HS) (x : Val) : Except PyExc Val × HS :=
 def hLen (s : HS) (v : Val) : Except PyExc Val :=
   match shape s v with
   | .scalar (.str x) => .ok (.int x.length)
-  | .list _ xs | .tuple _ xs => .ok (.int xs.length)
-  | .dict _ es => .ok (.int es.length)
+  | .list _ _ xs | .tuple _ _ xs | .set _ _ xs => .ok (.int xs.length)
+  | .dict _ _ es => .ok (.int es.length)
+  | .view _ d => match shape s d with
+    | .dict _ _ es => .ok (.int es.length)
+    | _ => .error unsupported
   | .other => .error unsupported
+  | .inst _ cls _ => if specClasses.contains cls then .error unsupported else .error tyErr
   | _ => .error tyErr
+
+/-- the items an iteration over `v` yields (`list(v)`, `tuple(v)`): new tuple cells for the
+    entries of an items view -/
+def hIter (s : HS) (v : Val) : Except PyExc (List Val) × HS :=
+  match shape s v with
+  | .scalar (.str x) => (.ok (x.toList.map (fun c => Val.str (String.singleton c))), s)
+  | .list _ _ xs | .tuple _ _ xs => (.ok xs, s)
+  -- the iteration order of a set is an implementation detail (hash order): only for ≤ 1 member
+  | .set _ _ xs => if xs.length ≤ 1 then (.ok xs, s) else (.error unsupported, s)
+  | .dict _ _ es => (.ok (es.map (·.1)), s)
+  | .view k d => match shape s d with
+    | .dict _ _ es =>
+      if k == "keys" then (.ok (es.map (·.1)), s)
+      else if k == "values" then (.ok (es.map (·.2)), s)
+      else
+        es.foldl (fun (acc : Except PyExc (List Val) × HS) e => match acc with
+          | (.ok l, s1) => (.ok (l ++ [(s1.alloc (.tuple "tuple" [e.1, e.2])).1]), (s1.alloc (.tuple "tuple" [e.1, e.2])).2)
+          | r => r) (.ok [], s)
+    | _ => (.error unsupported, s)
+  | .other => (.error unsupported, s)
+  | .inst _ cls _ => if specClasses.contains cls then (.error unsupported, s) else (.error tyErr, s)
+  | _ => (.error tyErr, s)
 
 def callFnH (s : HS) (name : String) (args : List Val) (kwargs : List (String × Val)) :
     Except PyExc Val × HS :=
@@ -329,6 +568,20 @@ def callFnH (s : HS) (name : String) (args : List Val) (kwargs : List (String ×
   | "len" => if !kwargs.isEmpty then errS s tyErr else match args with
     | [x] => (hLen s x, s)
     | _ => errS s tyErr
+  | "list" => if !kwargs.isEmpty then errS s tyErr else match args with
+    | [] => allocS s (.list "list" [])
+    | [x] => match hIter s x with
+      | (.ok xs, s1) => allocS s1 (.list "list" xs)
+      | (.error e, s1) => errS s1 e
+    | _ => errS s tyErr
+  | "tuple" => if !kwargs.isEmpty then errS s tyErr else match args with
+    | [] => allocS s (.tuple "tuple" [])
+    | [x] => match shape s x with
+      | .tuple _ "tuple" _ => okS s x                   -- tuple(t) is t for an exact tuple
+      | _ => match hIter s x with
+        | (.ok xs, s1) => allocS s1 (.tuple "tuple" xs)
+        | (.error e, s1) => errS s1 e
+    | _ => errS s tyErr
   | _ => errS s unsupported
 
 def seqCountH (s : HS) (xs : List Val) (x : Val) : Except PyExc Val :=
@@ -348,72 +601,213 @@ def seqIndexH (s : HS) (xs : List Val) (x : Val) : Except PyExc Val :=
       | none => .error unsupported
   go xs 0
 
-/-- a str method: delegated to the identity-free kernel; an argument that is not a
-    scalar is shown to it as an empty container of its type -/
-def strMethod (s : HS) (self : PV) (name : String) (args : List Val) : Except PyExc Val :=
-  let view (v : Val) : PV := match shape s v with
-    | .scalar p => p
-    | .tuple .. => .tuple []
-    | _ => .list []
-  liftPV (callMethod self name (args.map view) [])
+/-! #### str methods (ASCII) -/
+
+def isWs (c : Char) : Bool := c == ' ' || c == '\t' || c == '\n' || c == '\r' || c == '\x0b' || c == '\x0c'
+
+def splitWs (cs : List Char) : List String :=
+  let rec go : List Char → List Char → List String → List String
+    | [], cur, acc => (if cur.isEmpty then acc else acc ++ [String.ofList cur])
+    | c :: r, cur, acc =>
+      if isWs c then go r [] (if cur.isEmpty then acc else acc ++ [String.ofList cur])
+      else go r (cur ++ [c]) acc
+  go cs [] []
+
+/-- `s.split(sep)` for a non-empty `sep` -/
+def splitSep (cs sep : List Char) : List String :=
+  let rec go (fuel : Nat) (cs cur : List Char) (acc : List String) : List String :=
+    match fuel with
+    | 0 => acc ++ [String.ofList (cur ++ cs)]
+    | fuel + 1 =>
+      match cs with
+      | [] => acc ++ [String.ofList cur]
+      | c :: r =>
+        if sep.isPrefixOf cs then go fuel (cs.drop sep.length) [] (acc ++ [String.ofList cur])
+        else go fuel r (cur ++ [c]) acc
+  go (cs.length + 1) cs [] []
+
+/-- `s.replace(old, new)` -/
+def replaceAll (cs old new : List Char) : List Char :=
+  if old.isEmpty then
+    new ++ (cs.flatMap (fun c => c :: new))
+  else
+    let rec go (fuel : Nat) (cs acc : List Char) : List Char :=
+      match fuel with
+      | 0 => acc ++ cs
+      | fuel + 1 =>
+        match cs with
+        | [] => acc
+        | c :: r =>
+          if old.isPrefixOf cs then go fuel (cs.drop old.length) (acc ++ new)
+          else go fuel r (acc ++ [c])
+    go (cs.length + 1) cs []
+
+def asciiLower (c : Char) : Char := if 'A' ≤ c ∧ c ≤ 'Z' then Char.ofNat (c.toNat + 32) else c
+def asciiUpper (c : Char) : Char := if 'a' ≤ c ∧ c ≤ 'z' then Char.ofNat (c.toNat - 32) else c
+def isAscii (x : String) : Bool := x.toList.all (fun c => c.toNat < 128)
+
+/-- a str method on heap values; arguments that are not scalars matter only for `join` -/
+def strMethodH (s : HS) (self : String) (name : String) (args : List Val) : Except PyExc Val × HS :=
+  if !isAscii self then errS s unsupported else
+  let strArg (v : Val) : Option String := match v with | .str x => some x | _ => none
+  match name, args with
+  | "lower", [] => okS s (.str (String.ofList (self.toList.map asciiLower)))
+  | "capitalize", [] => okS s (.str (match self.toList with
+      | [] => ""
+      | c :: r => String.ofList (asciiUpper c :: r.map asciiLower)))
+  | "strip", [] => okS s (.str (String.ofList ((self.toList.dropWhile isWs).reverse.dropWhile isWs).reverse))
+  | "lstrip", [] => okS s (.str (String.ofList (self.toList.dropWhile isWs)))
+  | "rstrip", [] => okS s (.str (String.ofList (self.toList.reverse.dropWhile isWs).reverse))
+  | "isdigit", [] => okS s (.bool (!self.isEmpty && self.toList.all Char.isDigit))
+  | "split", [] => allocS s (.list "list" ((splitWs self.toList).map Val.str))
+  | "split", [.none] => allocS s (.list "list" ((splitWs self.toList).map Val.str))
+  | "split", [a] => match strArg a with
+    | some sep =>
+      if sep.isEmpty then errS s ⟨"ValueError"⟩
+      else if !isAscii sep then errS s unsupported
+      else allocS s (.list "list" ((splitSep self.toList sep.toList).map Val.str))
+    | none => match shape s a with
+      | .other => errS s unsupported
+      | _ => errS s tyErr
+  | "replace", [a, b] => match strArg a, strArg b with
+    | some o, some n =>
+      if !(isAscii o && isAscii n) then errS s unsupported
+      else okS s (.str (String.ofList (replaceAll self.toList o.toList n.toList)))
+    | _, _ => errS s tyErr
+  | "find", [a] => match strArg a with
+    | some sub => okS s (.int (match findSub self.toList sub.toList with
+      | some i => (i : Int)
+      | none => -1))
+    | none => errS s tyErr
+  | "endswith", [a] => match strArg a with
+    | some p => okS s (.bool (p.toList.reverse.isPrefixOf self.toList.reverse))
+    | none => match shape s a with
+      | .tuple .. => errS s unsupported
+      | _ => errS s tyErr
+  | "join", [a] =>
+    match hIter s a with
+    | (.error e, s1) => errS s1 e
+    | (.ok xs, s1) =>
+      match xs.mapM strArg with
+      | some parts =>
+        if parts.all isAscii then okS s1 (.str (self.intercalate parts)) else errS s1 unsupported
+      | none => errS s1 tyErr
+  | _, _ =>
+    -- the methods of the identity-free kernel
+    let view (v : Val) : PV := match shape s v with
+      | .scalar p => p
+      | .tuple .. => .tuple []
+      | _ => .list []
+    if ["upper", "count", "index", "startswith"].contains name then
+      (liftPV (callMethod (.str self) name (args.map view) []), s)
+    else if heapMethods.contains ("str", name) then errS s tyErr      -- wrong number of arguments
+    else errS s unsupported
+
+def setItems (s : HS) (a : Nat) (xs : List Val) : HS :=
+  match s.get a with
+  | some (.list c _) => s.set a (.list c xs)
+  | some (.set c _) => s.set a (.set c xs)
+  | _ => s.flag "setItems on a cell that is not a list / set"
+
+def setEntries (s : HS) (a : Nat) (es : List (Val × Val)) : HS :=
+  match s.get a with
+  | some (.dict c _) => s.set a (.dict c es)
+  | _ => s.flag "setEntries on a cell that is not a dict"
 
 def callMethodH (s : HS) (self : Val) (name : String) (args : List Val) (kwargs : List (String × Val)) :
     Except PyExc Val × HS :=
-  if !kwargs.isEmpty then errS s tyErr
+  if !kwargs.isEmpty then
+    (match shape s self with
+     | .other => errS s unsupported
+     | _ => errS s tyErr)
   else match shape s self, name, args with
-    | .scalar p, _, _ => (strMethod s p name args, s)
-    | .list _ xs, "count", [x] => (seqCountH s xs x, s)
-    | .tuple _ xs, "count", [x] => (seqCountH s xs x, s)
-    | .list _ xs, "index", [x] => (seqIndexH s xs x, s)
-    | .tuple _ xs, "index", [x] => (seqIndexH s xs x, s)
+    | .scalar (.str x), _, _ => strMethodH s x name args
+    | .scalar _, _, _ => errS s unsupported
+    | .list _ _ xs, "count", [x] => (seqCountH s xs x, s)
+    | .tuple _ _ xs, "count", [x] => (seqCountH s xs x, s)
+    | .list _ _ xs, "index", [x] => (seqIndexH s xs x, s)
+    | .tuple _ _ xs, "index", [x] => (seqIndexH s xs x, s)
     | .list .., "index", [_, _] | .tuple .., "index", [_, _] => errS s unsupported
     | .list .., "index", [_, _, _] | .tuple .., "index", [_, _, _] => errS s unsupported
     -- list.pop([i]): the member is detached and returned; the list cell changes
-    | .list a xs, "pop", [] =>
+    | .list a _ xs, "pop", [] =>
       match xs.getLast? with
-      | some x => okS (s.set a (.list "list" xs.dropLast)) x
+      | some x => okS (setItems s a xs.dropLast) x
       | none => errS s ⟨"IndexError"⟩
-    | .list a xs, "pop", [i] =>
+    | .list a _ xs, "pop", [i] =>
       match shape s i with
       | .scalar p => match asInt? p with
-        | some k => match C18.pyIndexNat xs.length k with
+        | some k =>
+          -- the argument is converted to Py_ssize_t first (unlike `xs[k]`, which raises IndexError)
+          if k > 9223372036854775807 ∨ k < -9223372036854775808 then errS s ovErr else
+          match C18.pyIndexNat xs.length k with
           | some j => match xs[j]? with
-            | some x => okS (s.set a (.list "list" (xs.eraseIdx j))) x
+            | some x => okS (setItems s a (xs.eraseIdx j)) x
             | none => errS s ⟨"IndexError"⟩
           | none => errS s ⟨"IndexError"⟩
         | none => errS s tyErr
       | _ => errS s tyErr
-    | .list a xs, "append", [x] => okS (s.set a (.list "list" (xs ++ [x]))) .none
-    | .dict _ es, "get", [k] =>
+    | .list a _ xs, "append", [x] => okS (setItems s a (xs ++ [x])) .none
+    | .dict _ _ es, "get", [k] =>
       match dictIdx s es k with
       | .ok (some i) => okS s ((es[i]?.map (·.2)).getD .none)
       | .ok none => okS s .none
       | .error e => errS s e
-    | .dict _ es, "get", [k, d] =>
+    | .dict _ _ es, "get", [k, d] =>
       match dictIdx s es k with
       | .ok (some i) => okS s ((es[i]?.map (·.2)).getD .none)
       | .ok none => okS s d
       | .error e => errS s e
-    | .dict a es, "pop", [k] =>
+    | .dict a _ es, "pop", [k] =>
       match dictIdx s es k with
-      | .ok (some i) => okS (s.set a (.dict "dict" (es.eraseIdx i))) ((es[i]?.map (·.2)).getD .none)
+      | .ok (some i) => okS (setEntries s a (es.eraseIdx i)) ((es[i]?.map (·.2)).getD .none)
       | .ok none => errS s ⟨"KeyError"⟩
       | .error e => errS s e
-    | .dict a es, "pop", [k, d] =>
+    | .dict a _ es, "pop", [k, d] =>
       match dictIdx s es k with
-      | .ok (some i) => okS (s.set a (.dict "dict" (es.eraseIdx i))) ((es[i]?.map (·.2)).getD .none)
+      | .ok (some i) => okS (setEntries s a (es.eraseIdx i)) ((es[i]?.map (·.2)).getD .none)
       | .ok none => okS s d
       | .error e => errS s e
-    | .dict a es, "setdefault", [k] =>
+    | .dict a _ es, "setdefault", [k] =>
       match dictIdx s es k with
       | .ok (some i) => okS s ((es[i]?.map (·.2)).getD .none)
-      | .ok none => okS (s.set a (.dict "dict" (es ++ [(k, .none)]))) .none
+      | .ok none => okS (setEntries s a (es ++ [(k, .none)])) .none
       | .error e => errS s e
-    | .dict a es, "setdefault", [k, v] =>
+    | .dict a _ es, "setdefault", [k, v] =>
       match dictIdx s es k with
       | .ok (some i) => okS s ((es[i]?.map (·.2)).getD .none)
-      | .ok none => okS (s.set a (.dict "dict" (es ++ [(k, v)]))) v
+      | .ok none => okS (setEntries s a (es ++ [(k, v)])) v
       | .error e => errS s e
+    -- live views of a dict
+    | .dict .., "keys", [] => allocS s (.inst "<view>" [("kind", .str "keys"), ("dict", self)])
+    | .dict .., "values", [] => allocS s (.inst "<view>" [("kind", .str "values"), ("dict", self)])
+    | .dict .., "items", [] => allocS s (.inst "<view>" [("kind", .str "items"), ("dict", self)])
+    -- sets
+    | .set a "set" xs, "add", [x] =>
+      if !hvHashable s eqFuel x then errS s tyErr
+      else match setMem s xs x with
+        | .ok true => okS s .none
+        | .ok false => match setCanon (xs ++ [x]) with
+          | some ys => okS (setItems s a ys) .none
+          | none => errS s unsupported
+        | .error e => errS s e
+    | .set a "set" xs, "discard", [x] =>
+      if !hvHashable s eqFuel x then errS s tyErr
+      else match xs.foldlM (fun acc y => match hvEq s eqFuel y x with
+          | some true => Except.ok acc
+          | some false => .ok (acc ++ [y])
+          | none => .error unsupported) [] with
+        | .ok ys => okS (setItems s a ys) .none
+        | .error e => errS s e
+    | .set _ c xs, "union", [y] =>
+      if !(c == "set" || c == "frozenset") then errS s unsupported
+      else match hIter s y with
+        | (.error e, s1) => errS s1 e
+        | (.ok ys, s1) => match setOfList s1 (xs ++ ys) with
+          | .ok zs => match setCanon zs with
+            | some ws => allocS s1 (.set c ws)
+            | none => errS s1 unsupported
+          | .error e => errS s1 e
     | .other, _, _ => errS s unsupported
     | _, _, _ => errS s tyErr
 
@@ -425,14 +819,110 @@ def hCall (s : HS) (f : Val) (args : List Val) (kwargs : List (String × Val)) :
     match shape s f with
     | .bound self name => callMethodH s self name args kwargs
     | .other => errS s unsupported
+    | .inst _ cls _ =>
+      -- calling a T object records a call; the probe classes are not callable
+      if specClasses.contains cls then errS s unsupported else errS s tyErr
     | _ => errS s tyErr          -- object is not callable
 
-/-- the primitives of C02 on heap values.  `revalFunc`: the callee is a callable (a
-    literal in argument mode) or — for a list / tuple / dict, which `arg_val` would
-    rebuild — not callable at all: the rebuilt copy is garbage nothing can reach before
-    the TypeError, so the instance does not allocate it.  No glom spec object is used
-    as callee. -/
-def hPrim : Prim Val HS :=
+/-! ### `type(v)(items)` for an instance of a container subclass -/
+
+def pairUp : List Val → List (Val × Val)
+  | k :: v :: r => (k, v) :: pairUp r
+  | _ => []
+
+/-- what an `isinstance` test in `_ArgValuator.mode` would do to an instance `v` of a subclass
+    of `base`: `type(v)()` + extend / update, or `type(v)(items)` — a NEW object of the same
+    class (instance attributes, a `default_factory` are not carried over: not in the heap
+    either), or the TypeError of a constructor with another signature -/
+def hRebuild (s : HS) (base : String) (v : Val) (vs : List Val) : Except PyExc Val × HS :=
+  match v with
+  | .ref a =>
+    match s.get a with
+    | some o =>
+      if ctorNeedsArgs.contains o.cls then errS s tyErr
+      else match base with
+        | "list" => allocS s (.list o.cls vs)
+        | "tuple" => allocS s (.tuple o.cls vs)
+        | "set" | "frozenset" => hMkSet s o.cls vs
+        | "dict" => match (pairUp vs).foldlM (fun acc kv => dictInsertH s acc kv.1 kv.2) [] with
+          | .ok es => allocS s (.dict o.cls es)
+          | .error e => errS s e
+        | _ => errS s unsupported
+    | none => errS s unsupported
+  | _ => errS s unsupported
+
+/-! ### a heap value as `arg_val` sees it -/
+
+/-- the `__ops__` tuple `(root, op, arg, op, arg, …)` of a stored T object, as objects -/
+def flatOfOps (conv : Val → Obj Val) (s : HS) : List Val → Bool → List (Obj Val)
+  | [], _ => []
+  | v :: r, isOp =>
+    (if isOp then
+      match v with
+      | .str c => Obj.opc c
+      | _ => Obj.opc "?"
+     else
+      -- the argument of a call is the pair (args, kwargs)
+      match v with
+      | .ref a => match s.get a with
+        | some (.tuple "tuple" [.ref ta, .ref ka]) =>
+          match s.get ta, s.get ka with
+          | some (.tuple "tuple" as), some (.dict "dict" ks) =>
+            Obj.cargs (as.map conv) (ks.map (fun e => (match e.1 with | .str k => k | _ => "?", conv e.2)))
+          | _, _ => conv v
+        | _ => conv v
+      | _ => conv v) :: flatOfOps conv s r (!isOp)
+
+/-- the object `arg_val` is handed when it is handed the heap value `v`: what `record`
+    produces for the Python expression that denotes `v`.  Exact list / tuple / dict / set
+    cells are containers `arg_val` rebuilds, cells of other classes with these layouts are
+    instances of subclasses, `T…` / `Spec` objects are specs, everything else a literal.
+    (`arg_val`'s cache — sharing INSIDE one rebuilt literal — is not modelled: beyond `fuel`
+    and for cyclic containers the value is flagged.) -/
+def objOfVal (s : HS) : Nat → Val → Obj Val
+  | 0, v => .lit v
+  | fuel + 1, v =>
+    match v with
+    | .ref a =>
+      match s.get a with
+      | some (.list c xs) =>
+        if c == "list" then .list (xs.map (objOfVal s fuel)) else .sub "list" v (xs.map (objOfVal s fuel))
+      | some (.tuple c xs) =>
+        if c == "tuple" then .tuple (xs.map (objOfVal s fuel)) else .sub "tuple" v (xs.map (objOfVal s fuel))
+      | some (.dict c es) =>
+        if c == "dict" then .dict (es.map (fun e => (objOfVal s fuel e.1, objOfVal s fuel e.2)))
+        else .sub "dict" v (es.flatMap (fun e => [objOfVal s fuel e.1, objOfVal s fuel e.2]))
+      | some (.set c xs) =>
+        if c == "set" || c == "frozenset" then .set c (xs.map (objOfVal s fuel))
+        else .sub "set" v (xs.map (objOfVal s fuel))
+      | some (.inst c attrs) =>
+        if specClasses.contains c then
+          -- glom's own objects: a `T…` expression with its `__ops__`, `Spec(x)`; others: outside
+          match c, attrs with
+          | "TType", [("ops", .ref t)] =>
+            match s.get t with
+            | some (.tuple _ (.sent root :: ops)) => .tt (.root root :: flatOfOps (objOfVal s fuel) s ops true)
+            | _ => .root "?"
+          | "Spec", [("spec", x)] => .spec (objOfVal s fuel x)
+          | "Val", [("value", x)] => .lit x                 -- `Val(x).glomit` returns x
+          | _, _ => .root c
+        else .lit v
+      | none => .lit v
+    | _ => .lit v
+
+/-- does `arg_val` do anything but return the value? -/
+def isSpecLike (s : HS) (v : Val) : Bool :=
+  match objOfVal s 1 v with
+  | .lit w => w != v          -- `Val(x)` denotes x
+  | .sub .. => false
+  | _ => true
+
+def objFuel : Nat := 10
+
+/-! ### the primitives -/
+
+/-- everything but `revalFunc` -/
+def hPrimBase (rv : HS → Val → Val → Except Err Val × HS) : Prim Val HS :=
   { none := .none
     getattr := hGetattr
     getitem := hGetitem
@@ -443,34 +933,25 @@ def hPrim : Prim Val HS :=
     mkTuple := fun s vs => s.alloc (.tuple "tuple" vs)
     hashKey := fun s k => (if hvHashable s eqFuel k then .ok () else .error tyErr, s)
     mkDict := hMkDict
-    revalFunc := fun s _ f => (f, s) }
+    mkSet := hMkSet
+    rebuild := hRebuild
+    revalFunc := rv }
 
-/-! ### trees ↔ heap (what an observer sees) -/
+/-- `arg_val` over a callee, given the primitives the evaluation of a spec-object callee uses -/
+def hReval (F : Facts) (inner : Prim Val HS) : HS → Val → Val → Except Err Val × HS :=
+  fun s target f => valOfRun (argVal F inner target (objOfVal s objFuel f)) s
 
-/-- the tree a value denotes in heap `h`; `none`: deeper than `fuel` (cyclic) or dangling -/
-def toPV (h : Heap) : Nat → Val → Option PV
-  | fuel, v =>
-    match scalarPV v, v with
-    | some p, _ => some p
-    | none, .ref a =>
-      match fuel with
-      | 0 => none
-      | fuel + 1 =>
-        match h[a]? with
-        | some (.list _ xs) => (xs.mapM (toPV h fuel)).map PV.list
-        | some (.tuple _ xs) => (xs.mapM (toPV h fuel)).map PV.tuple
-        | some (.dict _ es) =>
-          (es.mapM (fun (e : Val × Val) => match toPV h fuel e.1, toPV h fuel e.2 with
-            | some k, some v => some (k, v)
-            | _, _ => none)).map PV.dict
-        | some (.inst c attrs) =>
-          (attrs.mapM (fun (e : String × Val) => (toPV h fuel e.2).map (fun v => (e.1, v)))).map (PV.obj c)
-        | _ => none
-    | none, _ => none
+/-- the primitives of C02 on heap values; `n` bounds the nesting of spec-object callees -/
+def hPrim (F : Facts) : Nat → Prim Val HS
+  | 0 => hPrimBase (fun s _ f =>
+      if isSpecLike s f then (.error .unsupported, s.flag "spec-object callees nested too deep") else (.ok f, s))
+  | n + 1 => hPrimBase (hReval F (hPrim F n))
 
-def viewFuel : Nat := 48
+def primDepth : Nat := 3
 
-/-- the driver's `view` -/
-def hView : HS → Val → Option PV := fun s v => toPV s.heap viewFuel v
+/-- the references a cell holds, in their natural order (a dict's: key, value, key, value, …) -/
+def childrenKV : HObj → List Val
+  | .dict _ es => es.flatMap (fun e => [e.1, e.2])
+  | o => o.children
 
 end Glom.C02
